@@ -29,11 +29,35 @@ def iteration_events(fn: ast.FunctionDef, selfn: str, container: str):
     def classify(it: ast.AST):
         t = norm(it)
         full = f"{selfn}.{container}"
+        # concatenation of several signal lists: self.sig_out + self.sig_in
+        if isinstance(it, ast.BinOp) and isinstance(it.op, ast.Add):
+            parts = []
+            stack = [it]
+            while stack:
+                x = stack.pop()
+                if isinstance(x, ast.BinOp) and isinstance(x.op, ast.Add):
+                    stack += [x.left, x.right]
+                else:
+                    parts.append(norm(x))
+            if full in parts or f"list({full})" in parts:
+                return "fwd"
         if t == full or t in (f"list({full})", f"iter({full})", f"tuple({full})"):
             return "fwd"
         if t in (f"reversed({full})", f"{full}[::-1]", f"reversed(list({full}))", f"list(reversed({full}))"):
             return "rev"
         if full in t:
+            return "partial"
+        return None
+
+    def classify_index(it: ast.AST):
+        """for i in range(len(self.X)) / reversed(range(len(self.X))) / range(len(self.X)-1, -1, -1)"""
+        t = norm(it)
+        full = f"{selfn}.{container}"
+        if t == f"range(len({full}))":
+            return "fwd"
+        if t in (f"reversed(range(len({full})))", f"range(len({full})-1,-1,-1)"):
+            return "rev"
+        if f"len({full})" in t and t.startswith(("range(", "reversed(range(")):
             return "partial"
         return None
 
@@ -60,7 +84,20 @@ def iteration_events(fn: ast.FunctionDef, selfn: str, container: str):
             called, passed = invoked([n.elt], g.target.id)
             out.append({"node": n, "dir": d, "called": called, "passed": passed, "filtered": bool(g.ifs)})
         elif isinstance(n, ast.For):
-            d = classify(n.iter)
+            di = classify_index(n.iter) if isinstance(n.target, ast.Name) else None
+            d = None if di is not None else classify(n.iter)
+            if di is not None:
+                if True:
+                    # calls on self.X[i]
+                    called, passed = set(), set()
+                    for b in n.body:
+                        for x in ast.walk(b):
+                            if isinstance(x, ast.Call) and isinstance(x.func, ast.Attribute) and \
+                                    norm(x.func.value) == f"{selfn}.{container}[{n.target.id}]":
+                                called.add(x.func.attr)
+                    has_exit = any(isinstance(x, (ast.Break, ast.Continue, ast.Return)) for b in n.body for x in ast.walk(b))
+                    out.append({"node": n, "dir": di, "called": called, "passed": passed, "filtered": has_exit})
+                continue
             if d is None or not isinstance(n.target, ast.Name):
                 continue
             called, passed = invoked(n.body, n.target.id)
@@ -193,19 +230,11 @@ def r_accumulate(ctx: RuleCtx, col: Collector):
             if isinstance(st, ast.AugAssign) and isinstance(st.op, ast.Add):
                 col.ok(where, f.rel, line_of(st), stmt_key(st), "accumulation (+=)")
                 continue
-            # plain store: must be on the branch where the stored-to sensitivity is None
-            guard = None
-            for t in cfg.dominators().get(nd, ()):  # dominating tests
-                if t.kind == TEST and isinstance(t.ast, ast.Compare) and len(t.ast.ops) == 1 \
-                        and isinstance(t.ast.ops[0], ast.Is) and isinstance(t.ast.comparators[0], ast.Constant) \
-                        and t.ast.comparators[0].value is None and norm(t.ast.left) == norm(base):
-                    tsucc = [s for s, lab in t.succ if lab == "T"]
-                    fsucc = [s for s, lab in t.succ if lab == "F"]
-                    if tsucc and nd in cfg.reachable(tsucc, labels_excluded=("exc",)) and \
-                            not (fsucc and nd in cfg.reachable(fsucc, blocked=[t], labels_excluded=("exc",))):
-                        guard = t
-            if guard is not None and isinstance(st, ast.Assign):
-                col.ok(where, f.rel, line_of(st), stmt_key(st), f"first contribution, under '{U(guard.ast)}'")
+            # plain store: must be on a branch where the stored-to sensitivity is known to be None
+            from .common import none_facts
+            facts = none_facts(cfg, nd)
+            if isinstance(st, ast.Assign) and facts.get(norm(base)) is True:
+                col.ok(where, f.rel, line_of(st), stmt_key(st), f"first contribution: '{U(base)} is None' holds here")
             else:
                 col.bad(where, f.rel, line_of(st), stmt_key(st),
                         "plain overwrite of an existing sensitivity inside add_sensitivity (must accumulate)")
@@ -228,50 +257,67 @@ def r_accumulate(ctx: RuleCtx, col: Collector):
 
 
 def _check_dispatch_pairing(ctx: RuleCtx, col: Collector, f: FuncInfo, call_attr: str, container: str):
-    """Every call `<sig>.<call_attr>(<value>)` in `f` sits in a loop that enumerates either the signals or the
-    values, and signal and value are selected by the same index."""
+    """Every call `<sig>.<call_attr>(<value>)` in `f` sits in a loop that pairs input signal k with value k:
+    enumerate over the values or over the signals, zip of both, or a common range index."""
     selfn = ctx.model.self_name(f)
+    full = f"{selfn}.{container}"
     found = 0
     for loop in [n for n in ast.walk(f.node) if isinstance(n, ast.For)]:
         calls = [x for b in loop.body for x in ast.walk(b)
                  if isinstance(x, ast.Call) and isinstance(x.func, ast.Attribute) and x.func.attr == call_attr]
         if not calls:
             continue
-        idx = elem = None
         it = loop.iter
+        form = None
+        idx = elem = None
+        zsig = zval = None
         if isinstance(it, ast.Call) and isinstance(it.func, ast.Name) and it.func.id == "enumerate" and \
                 isinstance(loop.target, ast.Tuple) and len(loop.target.elts) == 2:
             idx, elem = U(loop.target.elts[0]), U(loop.target.elts[1])
-            over = norm(it.args[0])
-        elif isinstance(it, ast.Call) and isinstance(it.func, ast.Name) and it.func.id == "range":
-            idx, over = U(loop.target), None
-        else:
-            over = norm(it)
+            form = "enum-signals" if norm(it.args[0]) == full else "enum-values"
+        elif isinstance(it, ast.Call) and isinstance(it.func, ast.Name) and it.func.id == "zip" and \
+                isinstance(loop.target, ast.Tuple) and len(loop.target.elts) == len(it.args) == 2:
+            names = [U(x) for x in loop.target.elts]
+            srcs = [norm(a) for a in it.args]
+            if full in srcs:
+                k = srcs.index(full)
+                zsig, zval = names[k], names[1 - k]
+                form = "zip"
+        elif isinstance(it, ast.Call) and isinstance(it.func, ast.Name) and it.func.id == "range" and isinstance(loop.target, ast.Name):
+            idx = loop.target.id
+            form = "range"
         for c in calls:
             found += 1
             recv = c.func.value
             arg = c.args[0] if c.args else None
-            full = f"{selfn}.{container}"
-            ok = False
+            r, a = norm(recv), (norm(arg) if arg is not None else "")
+            verdict = None       # True ok / False proven mismatch / None not recognised
             why = ""
-            if arg is not None:
-                r, a = norm(recv), norm(arg)
-                if over == full and elem is not None and r == elem:
-                    # enumerating the signals: value must be <values>[idx]
-                    ok = isinstance(arg, ast.Subscript) and norm(arg.slice) == idx
+            if form == "enum-signals":
+                if r == elem and isinstance(arg, ast.Subscript):
+                    verdict = norm(arg.slice) == idx
                     why = "signal k paired with value[k]"
-                elif r == f"{full}[{idx}]" and elem is not None and a == elem:
-                    ok = True
+            elif form == "enum-values":
+                if a == elem and isinstance(recv, ast.Subscript) and norm(recv.value) == full:
+                    verdict = norm(recv.slice) == idx
                     why = "value k paired with signal k"
-                elif r == f"{full}[{idx}]" and isinstance(arg, ast.Subscript) and norm(arg.slice) == idx:
-                    ok = True
+            elif form == "zip":
+                if r == zsig:
+                    verdict = a == zval
+                    why = "zip(signals, values)"
+            elif form == "range":
+                if isinstance(recv, ast.Subscript) and norm(recv.value) == full and isinstance(arg, ast.Subscript):
+                    verdict = norm(recv.slice) == idx and norm(arg.slice) == idx
                     why = "common range index"
-            if ok:
+            if verdict is True:
                 col.ok(where_of(f), f.rel, line_of(c), stmt_key(c), why)
-            else:
+            elif verdict is False:
                 col.bad(where_of(f), f.rel, line_of(c), stmt_key(c),
-                        f"{f.short}: cannot show that input signal k receives exactly result k (receiver "
-                        f"'{U(recv)}', value '{U(arg) if arg is not None else ''}')")
+                        f"{f.short}: input signal and result are selected with different indices (receiver "
+                        f"'{U(recv)}', value '{U(arg) if arg is not None else ''}'): input k does not receive result k")
+            else:
+                raise AnalysisError(f"{f.short}: dispatch loop '{stmt_key(loop)}' is in a form this rule does not recognise "
+                                    f"(receiver '{U(recv)}', value '{U(arg) if arg is not None else ''}')")
     if not found:
         col.bad(where_of(f), f.rel, line_of(f.node), f"{f.short}: no {call_attr} dispatch loop",
                 f"{f.short} never calls {call_attr} on its input signals")
@@ -346,10 +392,11 @@ def r_skip_unseeded(ctx: RuleCtx, col: Collector):
         params = f.pos_params()
         p = params[0] if params else "ds"
         cfg = ctx.flow.cfg(f)
+        from .common import none_facts
         for st, tgt, base, sub in sens_store_sites(f):
             nd = cfg.node_of(st)
             t = _guarded_by_skip(cfg, nd, lambda k: k == "is-none:" + p)
-            if t is not None:
+            if t is not None or none_facts(cfg, nd).get(p) is False:
                 col.ok(where_of(f), f.rel, line_of(st), stmt_key(st), f"unreachable when '{p} is None'")
             else:
                 col.bad(where_of(f), f.rel, line_of(st), stmt_key(st),
@@ -361,7 +408,7 @@ def r_skip_unseeded(ctx: RuleCtx, col: Collector):
             for x in ast.walk(nd.ast):
                 if isinstance(x, ast.Call) and isinstance(x.func, ast.Attribute) and x.func.attr == "add_sensitivity":
                     t = _guarded_by_skip(cfg, nd, lambda k: k == "is-none:" + p)
-                    if t is None:
+                    if t is None and none_facts(cfg, nd).get(p) is not False:
                         col.bad(where_of(f), f.rel, line_of(x), stmt_key(x),
                                 f"{f.short} forwards a None contribution")
                     else:
